@@ -269,7 +269,8 @@ Definition hevc_decode_full (data : list N) : res (hevc_rec * bool * N * list (l
                 (N.land (N.shiftr b 6) 3) (N.land (N.shiftr b 3) 7) (N.land (N.shiftr b 2) 1) (N.land b 3) in
   if negb (N.land b 3 =? 3) then Ok (hdcr [], true, 0, []) else
   do r <- fsr_read_u8 data s; let '(numArrays, s) := r in
-  do r <- hevc_array_loop hevc_array_fuel data 0 (Z.of_N numArrays) s [] 0;
+  (* numArrays is a Go byte: `u8` states the range of the type (identity on bytes) *)
+  do r <- hevc_array_loop hevc_array_fuel data 0 (Z.of_N (u8 numArrays)) s [] 0;
   let '(early, s, arrs, t, dropped) := r in
   Ok (hdcr (rev arrs), fs_err s, t, dropped).
 
